@@ -6,3 +6,6 @@ CONSTANT NRand = 300
 CONSTANT RandDepth = 3
 CONSTANT Thorough = FALSE
 CHECK_DEADLOCK FALSE
+CONSTANT BigK = 2
+CONSTANT HistBad = 3
+CONSTANT HistOk = 2
